@@ -136,12 +136,6 @@ ReassignPre(N, A, P, R, s, e) ==
   /\ HasNode(TourOfV(A, P), s) /\ HasNode(TourOfV(A, P), e)
   /\ PosOf(TourOfV(A, P), s) <= PosOf(TourOfV(A, P), e)
 Moved(A, P, s, e) == SubSeq(TourOfV(A, P), PosOf(TourOfV(A, P), s), PosOf(TourOfV(A, P), e))
-OverridePre(N, A, P, R, s, e) ==
-  /\ ReassignPre(N, A, P, R, s, e)
-  /\ SegPre(N, TourOfV(A, P), IsDummy(A, P), s, e)
-  /\ TypeCompat(N, A, P, R, Moved(A, P, s, e))
-  /\ (IsReal(A, R) /\ IsDummy(A, P)) =>
-        \A n \in ActSet(N, Moved(A, P, s, e)) : ~FormFull(N, A, n)
 \* set the tour of a vehicle or dummy (delete it when the tour is empty)
 SetTour(N, A, v, t) ==
   IF IsReal(A, v)
@@ -149,6 +143,19 @@ SetTour(N, A, v, t) ==
          ELSE [A EXCEPT !.tours = Put(A.tours, v, t)]
     ELSE IF t = << >> THEN [A EXCEPT !.dum = Drop(A.dum, v)]
          ELSE [A EXCEPT !.dum = Put(A.dum, v, t)]
+\* a segment that begins with the provider's start depot is the provider's whole tour: the provider
+\* is deleted and the receiver starts at that depot from now on, which must be able to host a vehicle
+\* of the receiver's type once the provider has left
+TakeoverOK(N, A, P, R, s) ==
+  (IsReal(A, R) /\ IsReal(A, P) /\ N.nd[s].k = "sd" /\ s # A.tours[R][1]) =>
+      CanSpawn(N, SetTour(N, A, P, << >>), N.nd[s].depot, A.vtype[R])
+OverridePre(N, A, P, R, s, e) ==
+  /\ ReassignPre(N, A, P, R, s, e)
+  /\ SegPre(N, TourOfV(A, P), IsDummy(A, P), s, e)
+  /\ TypeCompat(N, A, P, R, Moved(A, P, s, e))
+  /\ TakeoverOK(N, A, P, R, s)
+  /\ (IsReal(A, R) /\ IsDummy(A, P)) =>
+        \A n \in ActSet(N, Moved(A, P, s, e)) : ~FormFull(N, A, n)
 \* formations after moving the activities M from P to R
 MoveForm(N, A, F, P, R, M) ==
   IF IsReal(A, P) /\ IsReal(A, R) THEN
